@@ -812,6 +812,17 @@ func (x *Exec) enterLoop(li *loopInfo, edges []edgeState) *State {
 		st.cells[k] = Val{T: et, S: n}
 		x.c.assume(x.c.wfAt(et, n, x.c.alloc(st)))
 	}
+	// range over string: the hidden position is changed by every iteration
+	if rng := stringRangeOf(li); rng != nil {
+		key := x.strPosKey(rng)
+		if _, ok := st.cells[key]; ok {
+			intT := types.Typ[types.Int]
+			n := x.c.freshConst("h_strpos", intT)
+			st.cells[key] = Val{T: intT, S: n}
+			sv := x.val(st, rng.X)
+			x.c.assume(and(sx("<=", "0", n), sx("<=", n, sx("gstr_len", sv.S))))
+		}
+	}
 	if lm.all {
 		x.c.havocAll(st)
 	} else {
@@ -897,6 +908,18 @@ func (x *Exec) rangeInv(li *loopInfo, st *State) string {
 		}
 	}
 	return inv
+}
+
+// stringRangeOf: the Range instruction of a `for ... range <string>` loop.
+func stringRangeOf(li *loopInfo) *ssa.Range {
+	for _, in := range li.header.Instrs {
+		if n, ok := in.(*ssa.Next); ok && n.IsString {
+			if r, ok := n.Iter.(*ssa.Range); ok {
+				return r
+			}
+		}
+	}
+	return nil
 }
 
 func rangeIndexAlloc(li *loopInfo) *ssa.Alloc {
@@ -1946,15 +1969,51 @@ var rangeInfos = map[*ssa.Range]*rangeState{}
 func (x *Exec) rangeInit(st *State, r *ssa.Range) Val {
 	v := x.val(st, r.X)
 	if isString(r.X.Type()) {
-		panic(unsupported("range over string"))
+		// the iterator state is a hidden position cell
+		st.cells[x.strPosKey(r)] = Val{T: types.Typ[types.Int], S: "0"}
 	}
 	return Val{T: r.Type(), S: v.S}
+}
+
+func (x *Exec) strPosKey(r *ssa.Range) string {
+	return fmt.Sprintf("L:%s:strpos_%s", x.prefix, r.Name())
+}
+
+// nextString: one step of `for i, r := range s`.  An ASCII byte is its own
+// rune and has width one; at any other position the rune is some value >= 128
+// (or utf8.RuneError) and the width is 1..4, staying inside the string.
+func (x *Exec) nextString(st *State, n *ssa.Next) Val {
+	c := x.c
+	rng := n.Iter.(*ssa.Range)
+	s := x.val(st, rng.X)
+	key := x.strPosKey(rng)
+	pv, okc := st.cells[key]
+	if !okc || pv.S == "" {
+		panic(unsupported("range over string: iterator position lost"))
+	}
+	intT := types.Typ[types.Int]
+	ln := sx("gstr_len", s.S)
+	more := c.def("more", "Bool", sx("<", pv.S, ln))
+	b := sx("gstr_at", s.S, pv.S)
+	bi := c.convert(types.Typ[types.Uint8], types.Typ[types.Int32], b)
+	r := c.freshConst("rune", types.Typ[types.Int32])
+	w := c.freshConst("width", intT)
+	c.assume(and(sx(">=", c.toIdx(types.Typ[types.Int32], r), "128"), sx("<=", c.toIdx(types.Typ[types.Int32], r), "1114111")))
+	c.assume(and(sx("<=", "1", w), sx("<=", w, "4")))
+	ascii := sx("<", c.toIdx(types.Typ[types.Uint8], b), "128")
+	c.assume(implies(and(more, not(ascii)), sx("<=", sx("+", pv.S, w), ln)))
+	rv := c.def("rv", c.sortOf(types.Typ[types.Int32]), ite(ascii, bi, r))
+	np := c.def("np", "Int", sx("+", pv.S, ite(ascii, "1", w)))
+	st.cells[key] = Val{T: intT, S: ite(more, np, pv.S)}
+	c.note("range over string: ASCII bytes yield themselves with width 1; other positions yield some rune >= 128 with width 1..4 (UTF-8 decoding not modelled)")
+	tup := n.Type().(*types.Tuple)
+	return Val{T: n.Type(), Tup: []Val{{T: types.Typ[types.Bool], S: more}, {T: tup.At(1).Type(), S: c.fromIdx(intT, pv.S)}, {T: tup.At(2).Type(), S: rv}}}
 }
 
 func (x *Exec) next(st *State, n *ssa.Next) Val {
 	c := x.c
 	if n.IsString {
-		panic(unsupported("range over string"))
+		return x.nextString(st, n)
 	}
 	rng := n.Iter.(*ssa.Range)
 	m := x.val(st, rng.X)
